@@ -70,6 +70,9 @@ class Kind:
     def state_term(self, st, num): ...
     def case_type(self, inst): ...
 
+    def op_term(self, op, t):
+        return Ctor(op, t)
+
 
 def _ns(i):
     return None if i is None else i.nanoseconds
@@ -97,7 +100,92 @@ class TB(Kind):
         return f"({n} * {n} * {n}) * list (pop * (Z * ({n} * option Z)))"
 
 
-KINDS = {k.name: k for k in [TB()]}
+class LK(Kind):
+    name = "lk"
+
+    def make(self, p):
+        from happysimulator.components.rate_limiter.policy import LeakyBucketPolicy
+        return LeakyBucketPolicy(p["rate"])
+
+    def snap(self, pol):
+        return _ns(pol._last_leak_time)
+
+    def params_term(self, p, num):
+        return num(p["rate"])
+
+    def state_term(self, st, num):
+        return opt(st)
+
+    def case_type(self, inst):
+        return f"{self.ntype[inst]} * list (pop * (Z * option Z))"
+
+
+class SW(Kind):
+    name = "sw"
+
+    def make(self, p):
+        from happysimulator.components.rate_limiter.policy import SlidingWindowPolicy
+        return SlidingWindowPolicy(p["w"], p["n"])
+
+    def snap(self, pol):
+        return [t.nanoseconds for t in pol._request_log]
+
+    def params_term(self, p, num):
+        return (num(p["w"]), p["n"])
+
+    def state_term(self, st, num):
+        return list(st)
+
+    def case_type(self, inst):
+        return f"({self.ntype[inst]} * Z) * list (pop * (Z * list Z))"
+
+
+class FW(Kind):
+    name = "fw"
+
+    def make(self, p):
+        from happysimulator.components.rate_limiter.policy import FixedWindowPolicy
+        return FixedWindowPolicy(p["n"], p["w"])
+
+    def snap(self, pol):
+        return [_ns(pol._current_window_start), pol._current_window_count]
+
+    def params_term(self, p, num):
+        return (num(p["w"]), p["n"])
+
+    def state_term(self, st, num):
+        return (opt(st[0]), st[1])
+
+    def case_type(self, inst):
+        return f"({self.ntype[inst]} * Z) * list (pop * (Z * (option Z * Z)))"
+
+
+class AD(Kind):
+    name = "ad"
+
+    def make(self, p):
+        from happysimulator.components.rate_limiter.policy import AdaptivePolicy
+        return AdaptivePolicy(p["r0"], p["min"], p["max"], p.get("inc"), p["dec"], p["win"])
+
+    def snap(self, pol):
+        return [pol._current_rate, pol._tokens, _ns(pol._last_refill_time)]
+
+    def params_term(self, p, num):
+        inc = p["inc"] if p.get("inc") is not None else p["r0"] * 0.1
+        return (num(p["min"]), num(p["max"]), num(inc), num(p["dec"]), num(p["win"]), num(p["r0"]))
+
+    def state_term(self, st, num):
+        return (num(st[0]), num(st[1]), opt(st[2]))
+
+    def op_term(self, op, t):
+        return Ctor("ACall", Ctor(op, t)) if op in ("Acq", "Tua") else Ctor(op, t)
+
+    def case_type(self, inst):
+        n = self.ntype[inst]
+        return f"({n} * {n} * {n} * {n} * {n} * {n}) * list (aop * (Z * ({n} * {n} * option Z)))"
+
+
+KINDS = {k.name: k for k in [TB(), LK(), SW(), FW(), AD()]}
 
 
 # --------------------------------------------------------------------------- implementation driver
@@ -151,7 +239,7 @@ def impl_policy(c):
 def encode_policy(c, obs):
     kind = KINDS[c["kind"]]
     num = numq if c["inst"] == "q" else numf
-    tr = [(Ctor(op, t), (r, kind.state_term(st, num))) for op, t, r, st in obs["trace"]]
+    tr = [(kind.op_term(op, t), (r, kind.state_term(st, num))) for op, t, r, st in obs["trace"]]
     return term((kind.params_term(c["params"], num), tr))
 
 
@@ -224,7 +312,94 @@ def oracle_tb(c, obs):
     return out
 
 
-ORACLES = {"tb": oracle_tb}
+def fslack(c, x=Fraction(1, 10 ** 6)):
+    return Fraction(0) if c["inst"] == "q" else x
+
+
+def oracle_lk(c, obs):
+    out = []
+    tr = obs["trace"]
+    if not monotone(tr):
+        return out
+    A = admitted_times(tr)
+    rate = Fraction(c["params"]["rate"])
+    for a, b in zip(A, A[1:]):
+        # spacing >= 1/rate seconds (one part in 1e12 of float slack off the grid)
+        if Fraction(b - a, NS) * rate < 1 - fslack(c, Fraction(1, 10 ** 12)):
+            out.append(dict(clause="leaky bucket: consecutive admissions at least 1/rate apart", a=a, b=b))
+            break
+    return out + oracle_tua(c, obs)
+
+
+def win_ns(w):
+    return int(w * 1_000_000_000)
+
+
+def oracle_sw(c, obs):
+    out = []
+    tr = obs["trace"]
+    if not monotone(tr):
+        return out
+    A = admitted_times(tr)
+    wn, n = win_ns(c["params"]["w"]), c["params"]["n"]
+    for j in range(len(A)):
+        k = sum(1 for t in A[:j + 1] if t >= A[j] - wn)
+        if k > n:
+            out.append(dict(clause="sliding window: at most N admitted in any window", window_end=A[j], admitted=k))
+            break
+    return out + oracle_tua(c, obs, can_admit=wn >= 1)
+
+
+def oracle_fw(c, obs):
+    out = []
+    tr = obs["trace"]
+    if not monotone(tr):
+        return out
+    A = admitted_times(tr)
+    wn, n = max(1, win_ns(c["params"]["w"])), c["params"]["n"]
+    per = {}
+    for t in A:
+        per[t // wn] = per.get(t // wn, 0) + 1
+    bad = [k for k, v in per.items() if v > n]
+    if bad:
+        out.append(dict(clause="fixed window: at most N admitted per aligned window", window_index=bad[0], admitted=per[bad[0]]))
+    for i in range(len(A)):
+        k = sum(1 for t in A[i:] if t <= A[i] + wn)
+        if k > 2 * n:
+            out.append(dict(clause="fixed window: at most 2N admitted in any window-length interval", start=A[i], admitted=k))
+            break
+    return out + oracle_tua(c, obs)
+
+
+def oracle_ad(c, obs):
+    out = []
+    tr = obs["trace"]
+    p = c["params"]
+    for op, t, r, st in tr:
+        if not (p["min"] <= st[0] <= p["max"]):
+            out.append(dict(clause="adaptive: rate stays within [min, max]", rate=st[0], at=t))
+            return out
+    if not monotone(tr):
+        return out
+    # bucket bound w.r.t. the largest rate in force up to the end of the interval
+    win = Fraction(p["win"])
+    rmax = Fraction(p["r0"])
+    adm = []          # (time, rmax up to then)
+    for op, t, r, st in tr:
+        rmax = max(rmax, Fraction(st[0]))
+        if op == "Acq" and r == 1:
+            adm.append((t, rmax))
+    for i in range(len(adm)):
+        for j in range(i, len(adm)):
+            R = adm[j][1]
+            if (j - i + 1) > R * win + R * Fraction(adm[j][0] - adm[i][0], NS) + fslack(c):
+                out.append(dict(clause="adaptive: admitted in [s,e] <= rate*window + rate*(e-s) for the largest rate in force",
+                                s=adm[i][0], e=adm[j][0], admitted=j - i + 1))
+                return out + oracle_tua(c, obs, feedback_breaks=True)
+    return out + oracle_tua(c, obs, feedback_breaks=True, can_admit=p["min"] * p["win"] >= 1.0)
+
+
+ORACLES = {"tb": oracle_tb, "lk": oracle_lk, "sw": oracle_sw, "fw": oracle_fw, "ad": oracle_ad}
 
 
 def oracle_policy(c, obs):
@@ -284,6 +459,62 @@ def gen_tb(inst):
     return g
 
 
+def gen_lk(inst):
+    def g(rng):
+        if inst == "q":
+            return dict(kind="lk", inst="q", params=dict(rate=rng.choice(POW2)), t0=rng.choice([0, GRID, NS]),
+                        ops=gen_ops(rng, True))
+        rate = rng.choice([1.0, 3.0, 10.0, 7.0, 0.1, 1000.0, 1e6, 1e9, 2e9, 0.3, 2, 5, rng.uniform(0.01, 5000)])
+        return dict(kind="lk", inst="f", params=dict(rate=rate), t0=rng.choice([0, 0, 1, NS, 123456789]),
+                    ops=gen_ops(rng, False))
+    return g
+
+
+def gen_win(kind, inst):
+    def g(rng):
+        if inst == "q":
+            w = rng.choice([1, 2, 8, 64, 256, 512, 513, 1024]) / 512.0
+            return dict(kind=kind, inst="q", params=dict(w=w, n=rng.randint(1, 4)), t0=rng.choice([0, GRID, NS]),
+                        ops=gen_ops(rng, True))
+        w = rng.choice([0.1, 0.1, 0.3, 1.0, 0.05, 1e-9, 2e-9, 0.7, 1, 2.5, 0.001, rng.uniform(1e-6, 3)])
+        return dict(kind=kind, inst="f", params=dict(w=w, n=rng.randint(1, 5)), t0=rng.choice([0, 0, 1, NS, 300_000_000]),
+                    ops=gen_ops(rng, False))
+    return g
+
+
+def _is_pow2(fr):
+    return fr > 0 and (fr.numerator & (fr.numerator - 1)) == 0 and (fr.denominator & (fr.denominator - 1)) == 0
+
+
+def gen_ad(inst):
+    def g(rng):
+        if inst == "q":
+            mn = rng.choice([0.5, 1.0, 2.0])
+            mx = mn * rng.choice([1, 2, 4, 16])
+            r0 = rng.choice([x for x in (mn, mn * 2, mn * 4, mx) if mn <= x <= mx])
+            p = dict(min=mn, max=mx, r0=r0, inc=rng.choice([0.5, 1.0, 2.0, 0.25]), dec=rng.choice([0.5, 0.25, 0.75]),
+                     win=rng.choice([1.0, 0.5, 2.0, 4.0]))
+            ops = gen_ops(rng, True, feedback=True)
+            # the division in time_until_available is exact only while the rate is a power of two
+            rate = Fraction(r0)
+            for o in ops:
+                if o[0] == "succ":
+                    rate = min(Fraction(mx), rate + Fraction(p["inc"]))
+                elif o[0] == "fail":
+                    rate = max(Fraction(mn), rate * Fraction(p["dec"]))
+                elif o[0] in ("tua", "probe") and not _is_pow2(rate):
+                    o[0] = "acq"
+            return dict(kind="ad", inst="q", params=p, t0=rng.choice([0, GRID, NS]), ops=ops)
+        mn = rng.choice([1.0, 0.5, 3.0, 10.0, 0.1])
+        mx = mn * rng.choice([1, 2, 10, 100, 3.7])
+        r0 = rng.choice([mn, mx, (mn + mx) / 2, rng.uniform(mn, mx)])
+        p = dict(min=mn, max=mx, r0=r0, inc=rng.choice([None, None, 1.0, 0.3, 5.0]), dec=rng.choice([0.5, 0.9, 0.1, 0.33]),
+                 win=rng.choice([1.0, 1.0, 0.1, 2.0, 0.5, 3]))
+        return dict(kind="ad", inst="f", params=p, t0=rng.choice([0, 0, 1, NS, 123456789]),
+                    ops=gen_ops(rng, False, feedback=True))
+    return g
+
+
 def nontrivial_policy(c, obs):
     rs = [r for op, _t, r, _ in obs["trace"] if op == "Acq"]
     return (0 in rs and 1 in rs) or any(op == "Tua" and r > 0 for op, _t, r, _ in obs["trace"])
@@ -301,9 +532,18 @@ def policy_family(kind, inst, gen):
 FAMILIES = [
     policy_family("tb", "q", gen_tb("q")),
     policy_family("tb", "f", gen_tb("f")),
+    policy_family("lk", "q", gen_lk("q")),
+    policy_family("lk", "f", gen_lk("f")),
+    policy_family("sw", "q", gen_win("sw", "q")),
+    policy_family("sw", "f", gen_win("sw", "f")),
+    policy_family("fw", "q", gen_win("fw", "q")),
+    policy_family("fw", "f", gen_win("fw", "f")),
+    policy_family("ad", "q", gen_ad("q")),
+    policy_family("ad", "f", gen_ad("f")),
 ]
 
-PROOF_FILES = ["C10/Model.v", "C10/QFacts.v", "C10/TokenBucket.v", "C10/Props.v"]
+PROOF_FILES = ["C10/Model.v", "C10/QFacts.v", "C10/TokenBucket.v", "C10/Leaky.v", "C10/Sliding.v", "C10/Fixed.v",
+               "C10/Adaptive.v", "C10/Props.v"]
 
 TRUSTED = [
     "Coq 8.16.1 kernel (coqc, vm_compute for witnesses and case evaluation); no native_compute",
@@ -313,10 +553,30 @@ TRUSTED = [
 ]
 
 
+class _FamCtx:
+    """Per-family view of the check context with its own deterministic PRNG, so that
+    families can be run concurrently (each spends most of its time inside coqc)."""
+
+    def __init__(self, ctx, seed):
+        import random
+        self._ctx = ctx
+        self.rng = random.Random(seed)
+
+    def __getattr__(self, name):
+        return getattr(self._ctx, name)
+
+
+def run_families(ctx, fams_n):
+    from concurrent.futures import ThreadPoolExecutor
+    subs = [(_FamCtx(ctx, ctx.rng.getrandbits(64)), fam, n) for fam, n in fams_n]
+    with ThreadPoolExecutor(max_workers=6) as ex:
+        return list(ex.map(lambda a: run_family(*a), subs))
+
+
 def run(ctx):
     ctx.prove(PROOF_FILES, allowed_axioms=(), trusted_base=TRUSTED)
-    n = ctx.n(150, 4000)
-    stats = [run_family(ctx, fam, n) for fam in FAMILIES]
+    n = ctx.n(120, 2500)
+    stats = run_families(ctx, [(fam, n) for fam in FAMILIES])
     merge_stats(ctx, stats, "random structured op sequences per policy (dense/sparse/burst/boundary-aligned, ns-adjacent, "
                             "probe = tua followed by acquire, drain = follow returned waits); non-trivial = both an admitted "
                             "and a denied acquire or a positive wait; distinct by JSON of the input")
